@@ -900,6 +900,10 @@ def r02f(an, rep, rule="R02.F"):
         ("jumps: relative, absolute, behind a prefix; operands that are plain numbers",
          [("LOAD_NAME", 0), ("POP_JUMP_IF_FALSE", None), ("JUMP_FORWARD", None), ("BUILD_TUPLE", 3), (E_, 0), ("JUMP_ABSOLUTE", None), ("POP_TOP", 5), (E_, 1), ("BUILD_LIST", 2), ("RETURN_VALUE", 0)],
          ("a",), (), (), (), ()),
+        # POP_JUMP_IF_TRUE -> offset 6, the FIRST code unit (a zero prefix) of the instruction whose opcode sits at 8; JUMP_ABSOLUTE at 4 -> itself; JUMP_FORWARD +0 -> the next instruction
+        ("a jump to an instruction with a redundant prefix, a jump to itself, a relative jump of zero",
+         [("LOAD_NAME", 0), ("POP_JUMP_IF_TRUE", ("abs", 6)), ("JUMP_ABSOLUTE", ("abs", 4)), (E_, 0), ("LOAD_NAME", 1), ("JUMP_FORWARD", ("rel", 0)), ("RETURN_VALUE", 0)],
+         ("a", "b"), (), (), (), ()),
     ]
     for V in VERSIONS:
         bad = []
@@ -913,6 +917,8 @@ def r02f(an, rep, rule="R02.F"):
             for k, (op, a) in enumerate(units):
                 if a is None:
                     a = {"POP_JUMP_IF_FALSE": 6 // scale, "JUMP_FORWARD": (12 - (2 * k + 2)) // scale, "JUMP_ABSOLUTE": 0}[op]
+                elif isinstance(a, tuple):
+                    a = a[1] // scale
                 fixed.append((op, a))
             code = bytes(x for op, a in fixed for x in (om[op], a))
             insns = read_units(code, R)
